@@ -211,6 +211,14 @@ Definition de_str (c : cfg) : M bytes :=
       if utf8_valid s then (Ok (s, skipn (N.to_nat n) bs), 0) else (Err EDeser, 0)
     else (Err EDeser, 0).
 
+(* Ident::deserialize (ident.rs): a String; the repaired reader rejects the
+   empty identifier, which the parser never produces and on which
+   units::query_unit_case_sensitive panics (`ident.chars().next().unwrap()`) *)
+Definition identb (s : bytes) : bool := negb (len_N s =? 0).
+Definition de_ident (c : cfg) : M bytes :=
+  rd s <- de_str c;
+  if c_validate c && negb (identb s) then fail EDeser else ret s.
+
 (* `for _ in 0..len { v.push(T::deserialize(read)?) }`: every element reader
    consumes at least one byte, so the number of iterations that can succeed is
    bounded by the input length; fuel = that bound + 1. *)
@@ -426,7 +434,7 @@ Definition de_value_body (c : cfg) (rexpr : M expr) (rscope : M scope) (ritems :
     else if tag =? 4 then ret VSf
     else if tag =? 5 then rd b <- de_base c; ret (VBase b)
     else if tag =? 6 then
-      rd p <- de_str c; rd e <- rexpr;
+      rd p <- de_ident c; rd e <- rexpr;
       rd sc <- opt_scope de_bool rscope; ret (VFn p e sc)
     else if tag =? 7 then
       rd n <- de_usize; rd _ <- alloc c n (sz_item (c_sz c));
@@ -441,7 +449,7 @@ Definition de_value_body (c : cfg) (rexpr : M expr) (rscope : M scope) (ritems :
 
 Definition de_expr_body (c : cfg) (rvalue : M value) (rexpr : M expr) (tag : N) : M expr :=
     if tag =? 0 then rd v <- rvalue; ret (ELit v)
-    else if tag =? 1 then rd s <- de_str c; ret (EIdent s)
+    else if tag =? 1 then rd s <- de_ident c; ret (EIdent s)
     else if tag =? 2 then rd a <- rexpr; ret (EParens a)
     else if tag =? 3 then rd a <- rexpr; ret (EUMinus a)
     else if tag =? 4 then rd a <- rexpr; ret (EUPlus a)
@@ -452,9 +460,9 @@ Definition de_expr_body (c : cfg) (rvalue : M value) (rexpr : M expr) (tag : N) 
     else if tag =? 9 then rd a <- rexpr; rd b <- rexpr; ret (EApplyFn a b)
     else if tag =? 10 then rd a <- rexpr; rd b <- rexpr; ret (EApplyMul a b)
     else if tag =? 11 then rd a <- rexpr; rd b <- rexpr; ret (EAs a b)
-    else if tag =? 12 then rd s <- de_str c; rd a <- rexpr; ret (EFn s a)
-    else if tag =? 13 then rd s <- de_str c; rd a <- rexpr; ret (EOf s a)
-    else if tag =? 14 then rd s <- de_str c; rd a <- rexpr; ret (EAssign s a)
+    else if tag =? 12 then rd s <- de_ident c; rd a <- rexpr; ret (EFn s a)
+    else if tag =? 13 then rd s <- de_ident c; rd a <- rexpr; ret (EOf s a)
+    else if tag =? 14 then rd s <- de_ident c; rd a <- rexpr; ret (EAssign s a)
     else if tag =? 15 then rd a <- rexpr; rd b <- rexpr; ret (EStatements a b)
     else if tag =? 16 then rd q <- de_bool; rd a <- rexpr; rd b <- rexpr; ret (EEquality q a b)
     else fail EDeser.
@@ -481,7 +489,7 @@ with de_expr (c : cfg) (fuel : nat) : M expr :=
   | S f => de_expr_body c (de_value c f) (de_expr c f) tag
   end
 with de_scope (c : cfg) (fuel : nat) : M scope :=
-  rd id <- de_str c;
+  rd id <- de_ident c;
   match fuel with
   | O => fail EOutOfFuel
   | S f => de_scope_body c (de_expr c f) (de_scope c f) id
@@ -541,7 +549,6 @@ Definition sizes_okb (s : sizes) : bool :=
    memory, Strings are UTF-8, Day/Month/Year/DayOfWeek/Bop are in range, a
    BuiltInFunction is one of the variants, hash-map keys are distinct) *)
 Section Wf.
-Variable asn : list bytes.     (* literals BuiltInFunction::as_str can produce *)
 Variable sz : sizes.           (* element sizes of the build *)
 
 Definition wfc_biguint (b : biguint) : bool :=
@@ -565,43 +572,46 @@ Definition wfc_number (n : number) : bool :=
   forallb wfc_unit_exp (n_unit n) && fits (sz_uexp sz) (n_unit n) &&
   wfc_base (n_base n) && wfc_fstyle (n_format n).
 
-Fixpoint wfc_value (v : value) : bool :=
+End Wf.
+
+Fixpoint wfc_value (asn : list bytes) (sz : sizes) (v : value) {struct v} : bool :=
   match v with
-  | VNum n => wfc_number n
+  | VNum n => wfc_number sz n
   | VBuiltin s => mem s asn && strb s
   | VFormat f => wfc_fstyle f
   | VBase b => wfc_base b
-  | VFn p e sc => strb p && wfc_expr e && wfc_oscope sc
-  | VObject it => wfc_items it && (items_len it * sz_item sz <=? isize_max)
+  | VFn p e sc => strb p && wfc_expr asn sz e && wfc_oscope asn sz sc
+  | VObject it => wfc_items asn sz it && (items_len it * sz_item sz <=? isize_max)
   | VString s => strb s
   | VMonth m => monthb m
   | VDow d => d <=? 6
   | VDate y m d => yearb y && monthb m && dayb d
   | VDp | VSf | VUnit | VBool _ => true
   end
-with wfc_expr (e : expr) : bool :=
+with wfc_expr (asn : list bytes) (sz : sizes) (e : expr) {struct e} : bool :=
   match e with
-  | ELit v => wfc_value v
+  | ELit v => wfc_value asn sz v
   | EIdent s => strb s
-  | EParens a | EUMinus a | EUPlus a | EUDiv a | EFact a => wfc_expr a
-  | EBop op a b => (op <=? 13) && wfc_expr a && wfc_expr b
+  | EParens a | EUMinus a | EUPlus a | EUDiv a | EFact a => wfc_expr asn sz a
+  | EBop op a b => (op <=? 13) && wfc_expr asn sz a && wfc_expr asn sz b
   | EApply a b | EApplyFn a b | EApplyMul a b | EAs a b | EStatements a b
-  | EEquality _ a b => wfc_expr a && wfc_expr b
-  | EFn s a | EOf s a | EAssign s a => strb s && wfc_expr a
+  | EEquality _ a b => wfc_expr asn sz a && wfc_expr asn sz b
+  | EFn s a | EOf s a | EAssign s a => strb s && wfc_expr asn sz a
   end
-with wfc_scope (s : scope) : bool :=
-  match s with Scope id e sc inner => strb id && wfc_expr e && wfc_oscope sc && wfc_oscope inner end
-with wfc_oscope (o : oscope) : bool :=
-  match o with ONone => true | OSome s => wfc_scope s end
-with wfc_items (it : items) : bool :=
-  match it with INil => true | ICons k v r => strb k && wfc_value v && wfc_items r end.
+with wfc_scope (asn : list bytes) (sz : sizes) (s : scope) {struct s} : bool :=
+  match s with Scope id e sc inner => strb id && wfc_expr asn sz e && wfc_oscope asn sz sc && wfc_oscope asn sz inner end
+with wfc_oscope (asn : list bytes) (sz : sizes) (o : oscope) {struct o} : bool :=
+  match o with ONone => true | OSome s => wfc_scope asn sz s end
+with wfc_items (asn : list bytes) (sz : sizes) (it : items) {struct it} : bool :=
+  match it with INil => true | ICons k v r => strb k && wfc_value asn sz v && wfc_items asn sz r end.
 
-Definition wfc_entry (kv : bytes * value) : bool := strb (fst kv) && wfc_value (snd kv).
-Definition wfc_vars (m : vars) : bool := forallb wfc_entry m && fits (sz_var sz) m && nodup_keys m.
-End Wf.
+Definition wfc_entry (asn : list bytes) (sz : sizes) (kv : bytes * value) : bool := strb (fst kv) && wfc_value asn sz (snd kv).
+Definition wfc_vars (asn : list bytes) (sz : sizes) (m : vars) : bool := forallb (wfc_entry asn sz) m && fits (sz_var sz) m && nodup_keys m.
+
 
 (* wf_sem: what evaluation and printing additionally rely on (C14 loaded_wf):
-   a base in 2..=36, a non-empty Large limb vector, a non-zero denominator *)
+   a base in 2..=36, a non-empty Large limb vector, a non-zero denominator,
+   non-empty identifiers *)
 Definition wfs_biguint (b : biguint) : bool :=
   match b with Small _ => true | Large v => negb (len_N v =? 0) end.
 Definition wfs_bigrat (q : bigrat) : bool :=
@@ -622,21 +632,21 @@ Fixpoint wfs_value (v : value) : bool :=
   match v with
   | VNum n => wfs_number n
   | VBase b => wfs_base b
-  | VFn _ e sc => wfs_expr e && wfs_oscope sc
+  | VFn p e sc => identb p && wfs_expr e && wfs_oscope sc
   | VObject it => wfs_items it
   | _ => true
   end
 with wfs_expr (e : expr) : bool :=
   match e with
   | ELit v => wfs_value v
-  | EIdent _ => true
+  | EIdent s => identb s
   | EParens a | EUMinus a | EUPlus a | EUDiv a | EFact a => wfs_expr a
   | EBop _ a b | EApply a b | EApplyFn a b | EApplyMul a b | EAs a b | EStatements a b
   | EEquality _ a b => wfs_expr a && wfs_expr b
-  | EFn _ a | EOf _ a | EAssign _ a => wfs_expr a
+  | EFn s a | EOf s a | EAssign s a => identb s && wfs_expr a
   end
 with wfs_scope (s : scope) : bool :=
-  match s with Scope _ e sc inner => wfs_expr e && wfs_oscope sc && wfs_oscope inner end
+  match s with Scope id e sc inner => identb id && wfs_expr e && wfs_oscope sc && wfs_oscope inner end
 with wfs_oscope (o : oscope) : bool :=
   match o with ONone => true | OSome s => wfs_scope s end
 with wfs_items (it : items) : bool :=
@@ -667,31 +677,29 @@ with has_scope_items (it : items) : bool :=
   match it with INil => false | ICons _ v r => has_scope_value v || has_scope_items r end.
 
 (* some built-in function whose literal the reader does not accept *)
-Section Names.
-Variable accepted : list bytes.
-Fixpoint names_ok_value (v : value) : bool :=
+Fixpoint names_ok_value (accepted : list bytes) (v : value) {struct v} : bool :=
   match v with
   | VBuiltin s => mem s accepted
-  | VFn _ e sc => names_ok_expr e && names_ok_oscope sc
-  | VObject it => names_ok_items it
+  | VFn _ e sc => names_ok_expr accepted e && names_ok_oscope accepted sc
+  | VObject it => names_ok_items accepted it
   | _ => true
   end
-with names_ok_expr (e : expr) : bool :=
+with names_ok_expr (accepted : list bytes) (e : expr) {struct e} : bool :=
   match e with
-  | ELit v => names_ok_value v
+  | ELit v => names_ok_value accepted v
   | EIdent _ => true
-  | EParens a | EUMinus a | EUPlus a | EUDiv a | EFact a => names_ok_expr a
+  | EParens a | EUMinus a | EUPlus a | EUDiv a | EFact a => names_ok_expr accepted a
   | EBop _ a b | EApply a b | EApplyFn a b | EApplyMul a b | EAs a b | EStatements a b
-  | EEquality _ a b => names_ok_expr a && names_ok_expr b
-  | EFn _ a | EOf _ a | EAssign _ a => names_ok_expr a
+  | EEquality _ a b => names_ok_expr accepted a && names_ok_expr accepted b
+  | EFn _ a | EOf _ a | EAssign _ a => names_ok_expr accepted a
   end
-with names_ok_scope (s : scope) : bool :=
-  match s with Scope _ e sc inner => names_ok_expr e && names_ok_oscope sc && names_ok_oscope inner end
-with names_ok_oscope (o : oscope) : bool :=
-  match o with ONone => true | OSome s => names_ok_scope s end
-with names_ok_items (it : items) : bool :=
-  match it with INil => true | ICons _ v r => names_ok_value v && names_ok_items r end.
-End Names.
+with names_ok_scope (accepted : list bytes) (s : scope) {struct s} : bool :=
+  match s with Scope _ e sc inner => names_ok_expr accepted e && names_ok_oscope accepted sc && names_ok_oscope accepted inner end
+with names_ok_oscope (accepted : list bytes) (o : oscope) {struct o} : bool :=
+  match o with ONone => true | OSome s => names_ok_scope accepted s end
+with names_ok_items (accepted : list bytes) (it : items) {struct it} : bool :=
+  match it with INil => true | ICons _ v r => names_ok_value accepted v && names_ok_items accepted r end.
+
 
 (* number of constructors: the non-triviality measure of the evidence *)
 Fixpoint size_value (v : value) : N :=
